@@ -29,9 +29,13 @@ def c01(tier, seed):
     runs[5]["scheds"] = ["c01_better_pair_validates_while_nominating"]
     runs.append(dict(cfg="poneway", traces=n(tier, 60, 500), drain=True, notime=True, preds=C01_PREDS))
     runs.append(dict(cfg="prole", traces=n(tier, 60, 500), drain=True, notime=True, preds=C01_PREDS))
+    # a one-way link on the best pair while another pair works in both directions
+    runs.append(dict(cfg="p21oneway", traces=n(tier, 100, 1000), drain=True, notime=True, zerowait=True, preds=C01_PREDS))
     # loss above the retry budget: what is excused is counted on the wire (WithinBudget), not read off the agents' pair states
     for c in ("plossy", "plossy21"):
         runs.append(dict(cfg=c, traces=n(tier, 150, 2000), drain=True, notime=True, zerowait=True, preds=C01_PREDS))
+    # with the clock running (the random walks above freeze it): a restart later than the checking deadline after the first start
+    runs.append(dict(cfg="prst", traces=0, drain=True, preds=C01_PREDS, scheds=["c01_restart_after_the_checking_deadline"]))
     plan = {"runs": runs,
             "mc": [("p11", ["Mirror", "SelValidated"], n(tier, {"MaxTicks": 2, "MaxLoss": 1, "MaxDup": 0}, {"MaxTicks": 2, "MaxLoss": 1, "MaxDup": 1})),
                    ("pnat", ["Mirror"], None)],
@@ -61,6 +65,8 @@ def c03(tier, seed):
     # a misbehaving peer that makes an agent switch role mid-session: what the old role left behind must not select anything
     for c in ("pinjrole", "p21injrole"):
         runs.append(dict(cfg=c, traces=w, drain=True, zerowait=True, preds=C03_PREDS))
+    # the lifecycle: nominations that arrive while the agent is Disconnected (and after Failed) follow the same rules
+    runs.append(dict(cfg="plife21", traces=n(tier, 100, 1500), preds=C03_PREDS, scheds=["c03_plain_uc_while_disconnected"]))
     plan = {"runs": runs, "mc": [("p11", ["SelValidated"], {"MaxTicks": 2, "MaxLoss": 1, "MaxDup": 0}), ("plite", ["SelListed"], None)],
             "assumptions": SESSION_ASSUME}
     return session.run_property("C03", tier, seed, plan)
@@ -118,7 +124,9 @@ def c20(tier, seed):
             dict(cfg="p21big", traces=n(tier, 100, 1000), drain=True, notime=True, zerowait=True, preds=C20_PREDS),
             dict(cfg="p21", traces=n(tier, 100, 1000), preds=C20_PREDS),
             dict(cfg="p21step", traces=n(tier, 100, 1000), drain=True, notime=True, zerowait=True, preds=C20_PREDS),
-            dict(cfg="p21n", traces=n(tier, 60, 500), preds=["C20_OnlyControllingEnabled"])]
+            dict(cfg="p21n", traces=n(tier, 60, 500), preds=["C20_OnlyControllingEnabled"]),
+            # renominations from an address known only as a peer-reflexive candidate, superseded while the value is deferred
+            dict(cfg="p21nat", traces=n(tier, 150, 2000), drain=True, notime=True, zerowait=True, preds=C20_PREDS)]
     plan = {"runs": runs, "mc": [("p21", ["SelListed", "NoDupPairs", "RenomAgree"], n(tier, None, {"MaxRenom": 2}))], "mc_timeout": n(tier, 600, 3000),
             "assumptions": SESSION_ASSUME + [
         "quiescent agreement is judged on loss-free traces after the fair suffix, with a frozen clock"]}
